@@ -49,6 +49,17 @@ inductive Val (K V : Type) where
 
 abbrev Env := List (String × Nat)
 
+/-- atomic actions of a call, as the concurrent model M5 counts them: calls on the underlying map, clock reads and
+setting accesses *outside* a closure that runs under a bucket lock, traversal visits, evicted-callback invocations.
+Recorded only by a tracing twin (`Twin.trace`). -/
+inductive Ev (K V : Type) where
+  | load (k : K) | store (k : K) | compute (k : K) | mapOther | visit (k : K) | clear | size
+  | clock
+  | loadSetting (field : String) | storeSetting (field : String)
+  | fire (c : Nat) (k : K) (v : V)
+  /-- a visitor or an evicted callback was invoked from inside a closure that runs under a bucket lock -/
+  | calledLocked
+
 structure W (K V : Type) where
   items : AMap K (Item V)
   now : Int
@@ -58,6 +69,10 @@ structure W (K V : Type) where
   fn : List (FnCall V) := []
   cbs : List (Nat × K × V) := []
   visits : List (K × V) := []
+  /-- trace of atomic actions (tracing twins only) -/
+  ev : List (Ev K V) := []
+  /-- inside a closure handed to `Compute` / `LoadOrCompute`, i.e. under a bucket lock (tracing twins only) -/
+  atomic : Bool := false
 
 /-- what differs between the two files -/
 structure Twin (K V : Type) where
@@ -67,6 +82,8 @@ structure Twin (K V : Type) where
   expiredWithNow : Int → Int → Bool
   /-- what `Load` / `Compute` hand out for an absent key: the nil interface (`Map`) or the zero `itemOf[V]` (`MapOf`) -/
   absent : Val K V
+  /-- record the trace of atomic actions (`W.ev`, `W.atomic`); the non-tracing twins leave both fields alone -/
+  trace : Bool := false
 
 variable {K V : Type} [DecidableEq K] [Inhabited V]
 
@@ -170,6 +187,21 @@ as `hide fuel` keeps `simp` from evaluating the loop body symbolically before an
 unfold `hide` once the body is applied to a concrete element). -/
 def hide (n : Nat) : Nat := n
 
+/-- record an atomic action, unless it happens inside a closure that runs under a bucket lock -/
+def emit (T : Twin K V) (w : W K V) (e : Ev K V) : W K V :=
+  if T.trace then (if w.atomic then w else { w with ev := w.ev ++ [e] }) else w
+
+/-- the closure handed to `Compute` runs under the bucket lock -/
+def enter (T : Twin K V) (w : W K V) : W K V := if T.trace then { w with atomic := true } else w
+
+/-- back to the caller's mode after the closure has returned -/
+def leave (T : Twin K V) (w0 w : W K V) : W K V := if T.trace then { w with atomic := w0.atomic } else w
+
+/-- a traversal hands an entry to the visitor -/
+def emitVisit (T : Twin K V) (w : W K V) : List (Val K V) → W K V
+  | .key k :: _ => emit T w (.visit k)
+  | _ => w
+
 /-- the visitor loop of `c.items.Range(fn)`: `call` is the function value applied -/
 def loopItems (call : List (Val K V) → W K V → Res K V) : List (K × Item V) → W K V → Option (W K V)
   | [], w => some w
@@ -189,7 +221,7 @@ def loopKvs (body : Val K V → W K V → Option (Option (List (Val K V)) × W K
     | none => none
 
 /-- user functions, evicted callback -/
-def callUser (f : Val K V) (args : List (Val K V)) (w : W K V) : Res K V :=
+def callUser (tr : Bool) (f : Val K V) (args : List (Val K V)) (w : W K V) : Res K V :=
   match f, args with
   | .ufn (.fn0 v δ), [] => some ([.user v], { w with fn := w.fn ++ [.f], now := w.now + δ })
   | .ufn (.fn2 g δ), [old, .bool lok] =>
@@ -200,11 +232,14 @@ def callUser (f : Val K V) (args : List (Val K V)) (w : W K V) : Res K V :=
     | none => none
   | .ufn (.visitor f), [.key k, v] =>
     match toV v with
-    | some a => some ([.bool (f k a)], { w with visits := w.visits ++ [(k, a)] })
+    | some a => some ([.bool (f k a)],
+        { w with visits := w.visits ++ [(k, a)], ev := if tr && w.atomic then w.ev ++ [.calledLocked] else w.ev })
     | none => none
   | .ecb (some c), [.key k, v] =>
     match toV v with
-    | some a => some ([], { w with cbs := w.cbs ++ [(c, k, a)] })
+    | some a => some ([],
+        { w with cbs := w.cbs ++ [(c, k, a)],
+                 ev := if tr then w.ev ++ [if w.atomic then .calledLocked else .fire c k a] else w.ev })
     | none => none
   | _, _ => none
 
@@ -330,23 +365,23 @@ mutual
         | some (vs, w'), some d => callDecl T fuel d [] vs w'
         | _, _ => none
       | .settingLoad f =>
-        if f = "defaultExpiration" then some ([.int w.dflt], w)
-        else if f = "evictedCallback" then some ([.ecb w.cb], w)
+        if f = "defaultExpiration" then some ([.int w.dflt], emit T w (.loadSetting f))
+        else if f = "evictedCallback" then some ([.ecb w.cb], emit T w (.loadSetting f))
         else none
       | .settingStore f a =>
         match evalE T fuel env a w with
-        | some ([.int d], w') => if f = "defaultExpiration" then some ([], { w' with dflt := d }) else none
-        | some ([.ecb c], w') => if f = "evictedCallback" then some ([], { w' with cb := c }) else none
+        | some ([.int d], w') => if f = "defaultExpiration" then some ([], emit T { w' with dflt := d } (.storeSetting f)) else none
+        | some ([.ecb c], w') => if f = "evictedCallback" then some ([], emit T { w' with cb := c } (.storeSetting f)) else none
         | _ => none
       | .itemMeth m r args =>
         match evalE T fuel env r w with
         | some ([.item _ e], w') =>
           (match evalArgs T fuel env args w' with
-           | some ([], w'') => if m = "expired" then some ([.bool (T.expired e w''.now)], w'') else none
+           | some ([], w'') => if m = "expired" then some ([.bool (T.expired e w''.now)], emit T w'' .clock) else none
            | some ([.int now], w'') => if m = "expiredWithNow" then some ([.bool (T.expiredWithNow e now)], w'') else none
            | _ => none)
         | _ => none
-      | .timeNow => some ([.time w.now], w)
+      | .timeNow => some ([.time w.now], emit T w .clock)
       | .timeAdd t d =>
         match evalE T fuel env t w with
         | some ([.time n], w') =>
@@ -367,7 +402,7 @@ mutual
         | _ => none
       | .timeUntil t =>
         match evalE T fuel env t w with
-        | some ([.time n], w') => some ([.int (n - w'.now)], w')
+        | some ([.time n], w') => some ([.int (n - w'.now)], emit T w' .clock)
         | _ => none
       | .callVar f args =>
         match readVar env w f, evalArgs T fuel env args w with
@@ -426,44 +461,45 @@ mutual
       match op, args with
       | .Load, [.key k] =>
         match w.items.get k with
-        | some i => some ([ofItem i, .bool true], w)
-        | none => some ([T.absent, .bool false], w)
-      | .Store, [.key k, .item a e] => some ([], { w with items := w.items.set k ⟨a, e⟩ })
+        | some i => some ([ofItem i, .bool true], emit T w (.load k))
+        | none => some ([T.absent, .bool false], emit T w (.load k))
+      | .Store, [.key k, .item a e] => some ([], emit T { w with items := w.items.set k ⟨a, e⟩ } (.store k))
       | .LoadOrStore, [.key k, .item a e] =>
         match w.items.get k with
-        | some i => some ([ofItem i, .bool true], w)
-        | none => some ([.item a e, .bool false], { w with items := w.items.set k ⟨a, e⟩ })
+        | some i => some ([ofItem i, .bool true], emit T w .mapOther)
+        | none => some ([.item a e, .bool false], emit T { w with items := w.items.set k ⟨a, e⟩ } .mapOther)
       | .LoadAndStore, [.key k, .item a e] =>
         match w.items.get k with
-        | some i => some ([ofItem i, .bool true], { w with items := w.items.set k ⟨a, e⟩ })
-        | none => some ([.item a e, .bool false], { w with items := w.items.set k ⟨a, e⟩ })
+        | some i => some ([ofItem i, .bool true], emit T { w with items := w.items.set k ⟨a, e⟩ } .mapOther)
+        | none => some ([.item a e, .bool false], emit T { w with items := w.items.set k ⟨a, e⟩ } .mapOther)
       | .LoadOrCompute, [.key k, f] =>
         match w.items.get k with
-        | some i => some ([ofItem i, .bool true], w)
+        | some i => some ([ofItem i, .bool true], emit T w .mapOther)
         | none =>
-          (match callVal T fuel f [] w with
-           | some ([.item a e], w') => some ([.item a e, .bool false], { w' with items := w'.items.set k ⟨a, e⟩ })
+          (match callVal T fuel f [] (enter T (emit T w .mapOther)) with
+           | some ([.item a e], w') => some ([.item a e, .bool false], leave T w { w' with items := w'.items.set k ⟨a, e⟩ })
            | _ => none)
       | .Compute, [.key k, f] =>
         match w.items.get k with
         | some i =>
-          (match callVal T fuel f [ofItem i, .bool true] w with
-           | some ([_, .bool true], w') => some ([ofItem i, .bool false], { w' with items := w'.items.erase k })
-           | some ([.item a e, .bool false], w') => some ([.item a e, .bool true], { w' with items := w'.items.set k ⟨a, e⟩ })
+          (match callVal T fuel f [ofItem i, .bool true] (enter T (emit T w (.compute k))) with
+           | some ([_, .bool true], w') => some ([ofItem i, .bool false], leave T w { w' with items := w'.items.erase k })
+           | some ([.item a e, .bool false], w') => some ([.item a e, .bool true], leave T w { w' with items := w'.items.set k ⟨a, e⟩ })
            | _ => none)
         | none =>
-          (match callVal T fuel f [T.absent, .bool false] w with
-           | some ([_, .bool true], w') => some ([T.absent, .bool false], w')
-           | some ([.item a e, .bool false], w') => some ([.item a e, .bool true], { w' with items := w'.items.set k ⟨a, e⟩ })
+          (match callVal T fuel f [T.absent, .bool false] (enter T (emit T w (.compute k))) with
+           | some ([_, .bool true], w') => some ([T.absent, .bool false], leave T w w')
+           | some ([.item a e, .bool false], w') => some ([.item a e, .bool true], leave T w { w' with items := w'.items.set k ⟨a, e⟩ })
            | _ => none)
       | .LoadAndDelete, [.key k] =>
         match w.items.get k with
-        | some i => some ([ofItem i, .bool true], { w with items := w.items.erase k })
-        | none => some ([T.absent, .bool false], w)
-      | .Delete, [.key k] => some ([], { w with items := w.items.erase k })
-      | .Range, [f] => (loopItems (callVal T (hide fuel) f) w.items w).map fun w' => ([], w')
-      | .Clear, [] => some ([], { w with items := [] })
-      | .Size, [] => some ([.int w.items.size], w)
+        | some i => some ([ofItem i, .bool true], emit T { w with items := w.items.erase k } .mapOther)
+        | none => some ([T.absent, .bool false], emit T w .mapOther)
+      | .Delete, [.key k] => some ([], emit T { w with items := w.items.erase k } .mapOther)
+      | .Range, [f] =>
+        (loopItems (fun args w1 => callVal T (hide fuel) f args (emitVisit T w1 args)) w.items w).map fun w' => ([], w')
+      | .Clear, [] => some ([], emit T { w with items := [] } .clear)
+      | .Size, [] => some ([.int w.items.size], emit T w .size)
       | _, _ => none
 
   /-- call of a function value -/
@@ -473,7 +509,7 @@ mutual
     | fuel + 1 =>
       match f with
       | .clo d cenv => callDecl T fuel d cenv args w
-      | _ => callUser f args w
+      | _ => callUser T.trace f args w
 
   /-- call of a declared function: parameters and named results in fresh cells -/
   def callDecl (T : Twin K V) (fuel : Nat) (d : FuncDecl) (cenv : Env) (args : List (Val K V)) (w : W K V) : Res K V :=
